@@ -24,7 +24,7 @@ From Coq Require Import List NArith ZArith Bool Permutation.
 From SK Require Import lib.LGraph model.C01_Model model.C02_Model model.C09_Model
   proof.C09_Canon proof.C09_Valid proof.C09_Balance proof.C09_Main proof.C09_Indep proof.C09_Indep2 proof.C09_ValidRC proof.C09_WL proof.C09_NautyRigid proof.C09_Nauty.
 From SK Require Import lib.StrJoin model.C09_Strings model.C09_State proof.C09_Str proof.C09_Expand proof.C09_Graph proof.C09_Backends proof.C09_State proof.C09_StrFit.
-From SK Require Import model.C09_Helpers proof.C09_Helpers model.C09_Records proof.C09_Records.
+From SK Require Import model.C09_Helpers proof.C09_Helpers model.C09_Records proof.C09_Records proof.C09_Top proof.C09_Opt.
 From SK Require model.C08_Model proof.C08_Spec model.C01_Opts.
 Import ListNotations.
 
@@ -461,6 +461,36 @@ Theorem C09_validate_smiles_spec : forall (m : str) (ia : bool) (ncols : nat) (r
     snd (fst c) = length (filter (fun b : bool => b) (fst (fst c))) /\ (snd (fst c) <= snd c)%nat.
 Proof. exact validate_smiles_spec. Qed.
 Print Assumptions C09_validate_smiles_spec.
+
+(** smiles_check with its options is exact at the level of the API call: on two readable strings it answers True exactly when
+    the graphs the method string selects, built with the given ignore_aromaticity, are isomorphic on typesGH + order pairs *)
+Theorem C09_smiles_check_exact : forall (m : str) (ia : bool) (G1 H1 G2 H2 : mgraph), wf G2 -> wf H2 ->
+  (smiles_check_full m ia (Some (G1, H1)) (Some (G2, H2)) = true <->
+   if is_rc m
+   then its_isomorphic (get_rc (C01_Opts.its_construct_o (vopts ia) G1 H1)) (get_rc (C01_Opts.its_construct_o (vopts ia) G2 H2))
+   else its_isomorphic (C01_Opts.its_construct_o (vopts ia) G1 H1) (C01_Opts.its_construct_o (vopts ia) G2 H2)).
+Proof. exact smiles_check_exact. Qed.
+Print Assumptions C09_smiles_check_exact.
+
+(** ignore_aromaticity does not influence the ITS verdict (the option only changes standard_order, which the matcher never
+    compares).  (The RC verdict does depend on it: get_rc selects the centre by standard_order - the aromatic histories show
+    both verdicts.)  Every renumbering is accepted by BOTH methods under BOTH values of the option. *)
+Theorem C09_its_verdict_ignores_option : forall (ia : bool) (G1 H1 G2 H2 : mgraph), wf G2 -> wf H2 ->
+  smiles_check_its_o ia G1 H1 G2 H2 = smiles_check_its G1 H1 G2 H2.
+Proof. exact its_verdict_ignores_ia. Qed.
+Print Assumptions C09_its_verdict_ignores_option.
+
+Theorem C09_validator_renumbering_options : forall (ia : bool) (f : N -> N) (G H : mgraph),
+  (forall a b, f a = f b -> a = b) -> wf G -> wf H ->
+  smiles_check_rc_o ia (relabel f G) (relabel f H) G H = true /\ smiles_check_its_o ia (relabel f G) (relabel f H) G H = true.
+Proof. exact validator_renumbering_options. Qed.
+Print Assumptions C09_validator_renumbering_options.
+
+Theorem C09_renumbering_accepted_its_options : forall (ia : bool) (f : N -> N) (G H : mgraph),
+  (forall a b, f a = f b -> a = b) -> wf G -> wf H ->
+  smiles_check_its_o ia (relabel f G) (relabel f H) G H = true.
+Proof. exact renumbering_accepted_its_o. Qed.
+Print Assumptions C09_renumbering_accepted_its_options.
 
 (** FixAAM.fix_aam_rsmi (every map number + 1; [fix_aam_graph], compared with the re-parsed output on every `fixaam` case) is a
     renumbering the validator accepts by both methods *)
